@@ -16,12 +16,12 @@ type Node struct {
 	L    []*Node
 }
 
-func Int(i int64) *Node       { return &Node{Kind: 'z', Z: big.NewInt(i)} }
-func Uint(u uint64) *Node     { return &Node{Kind: 'z', Z: new(big.Int).SetUint64(u)} }
-func Big(b *big.Int) *Node    { return &Node{Kind: 'z', Z: b} }
-func Str(s string) *Node      { return &Node{Kind: 's', S: []rune(s)} }
-func Runes(r []rune) *Node    { return &Node{Kind: 's', S: r} }
-func List(l ...*Node) *Node   { return &Node{Kind: 'l', L: l} }
+func Int(i int64) *Node     { return &Node{Kind: 'z', Z: big.NewInt(i)} }
+func Uint(u uint64) *Node   { return &Node{Kind: 'z', Z: new(big.Int).SetUint64(u)} }
+func Big(b *big.Int) *Node  { return &Node{Kind: 'z', Z: b} }
+func Str(s string) *Node    { return &Node{Kind: 's', S: []rune(s)} }
+func Runes(r []rune) *Node  { return &Node{Kind: 's', S: r} }
+func List(l ...*Node) *Node { return &Node{Kind: 'l', L: l} }
 func Bool(b bool) *Node {
 	if b {
 		return Int(1)
